@@ -11,9 +11,9 @@ SPEC = {'level': 'exploration',
  'stages': [{'kind': 'gen',
              'binary': 'vh_c17',
              'target': 'c17_blockstore',
-             'cases_quick': 1000,
+             'cases_quick': 700,
              'cases_thorough': 16000,
-             'min_cases_quick': 300,
+             'min_cases_quick': 200,
              'floors': {'multi-file': 0.3, 'reorg': 0.15, 'fault-magic': 0.08, 'fault-length': 0.08, 'fault-header': 0.08, 'fault-tx': 0.08,
                         'fault-undo-body': 0.05, 'fault-undo-checksum': 0.05, 'fault-truncate': 0.05, 'corrupt-fork-not-connected': 0.05},
              'rule': 'block/undo write histories + raw-file faults; non-trivial = records in >=2 block files + undo written after a reorg + >=2 fault regions hit'}]}
